@@ -181,3 +181,106 @@ def check_configs(ctx, rep, cfgs, rule="C12.R5"):
 
 def skipped(ctx, cfg):
     return sorted("%s: %s" % (f.name, R.why) for (f, R) in round_maps(ctx, cfg).values() if R.why)
+
+
+# ------------------------------------------------------------------------------------------------ key schedule
+def schedule_maps(ctx, cfg):
+    """{function key: (Func, [canonical per-path transfer map of the rounds loop])} for every function with a loop
+    that stores into elements of an array inside its first parameter (the tweakey setters and the xor pass)."""
+    from ..affine import loop_transfer
+    from ..build import config_name
+    from .c05 import loop_paths
+    cache = ctx.__dict__.setdefault("_affine_sched_cache", {})
+    cn = config_name(cfg)
+    if cn in cache:
+        return cache[cn]
+    prog = ctx.prog(cfg)
+    out = {}
+    for f in sorted(prog.defined(), key=lambda f: f.key):
+        if not f.name.lstrip("_").startswith(("skinny128", "skinny64")) or not f.params or not f.params[0]["type"].endswith("Key_t*"):
+            continue
+        maps = []
+        for h, body in sorted(f.loops().items()):
+            try:
+                T = loop_transfer(prog, f, h, body, loop_paths)
+            except Exception:
+                continue
+            for p, res in sorted(T.items()):
+                if "error" in res or not any(k != "cuts" and k[0] == "E" and k[1] == 0 for k in res):
+                    continue
+                canon = frozenset((k, v) for k, v in res.items() if k != "cuts" and v != "T")
+                ntop = sum(1 for k, v in res.items() if k != "cuts" and v == "T" and k[0] != "P")
+                maps.append((canon, ntop, res.get("cuts", 0)))
+        if maps:
+            out[f.key] = (f, maps)
+    cache[cn] = out
+    return out
+
+
+def _diff_maps(a, b):
+    da, db = dict(a), dict(b)
+    for k in sorted(set(da) | set(db), key=repr):
+        if da.get(k) != db.get(k):
+            def show(v):
+                if v is None:
+                    return "unchanged"
+                return "%s%s" % (" ^ ".join("%s%s[%d].%d" % (("tk" if x[0] == "L" else ("sched" if x[0] == "E" else "")), (x[1] if x[0] == "P" else ""), x[-2] if x[0] != "P" else 0, x[-1]) for x in sorted(v[0], key=repr)) or "0", " ^ 1" if v[1] else "")
+            what = "%s byte %d bit %d" % ("local " + str(k[1]) if k[0] == "L" else ("schedule word" if k[0] == "E" else "value " + str(k[1])), k[-2] if k[0] != "P" else 0, k[-1])
+            return "%s: here %s, reference %s" % (what, show(da.get(k)), show(db.get(k)))
+    return "?"
+
+
+def check_sched_configs(ctx, rep, cfgs, rule="C12.R6"):
+    from ..build import config_name
+    ref = schedule_maps(ctx, None)
+    n = 0
+    for cfg in cfgs:
+        if cfg is None:
+            continue
+        cn = config_name(cfg)
+        cur = schedule_maps(ctx, cfg)
+        for key, (f, maps) in sorted(cur.items()):
+            if key not in ref:
+                continue
+            n += 1
+            a = {m[0] for m in maps}
+            b = {m[0] for m in ref[key][1]}
+            cons = construct(f)
+            if a == b:
+                rep.ok(rule, cons, fsite(f), "one round of the tweakey schedule loop (TK permutation, LFSR, round constant, what is xored into the schedule word) is the same GF(2) affine map as in the shipped configuration (%d path(s))" % len(a), cfg=cn)
+            else:
+                x = sorted(a - b, key=repr)
+                y = sorted(b - a, key=repr)
+                rep.violation(rule, cons, fsite(f), "this configuration's tweakey schedule round differs from the shipped one: %s" %
+                              (_diff_maps(x[0], y[0]) if x and y else "a path exists in only one of the two configurations"), cfg=cn)
+    return n
+
+
+def check_pass_walk(ctx, rep, cfg, rule="C04.R1"):
+    """the xor pass of set_tweak walks the tweakey exactly like the TK1 setter: same TK permutation per round and the
+    same tweakey bits reach each schedule bit (the setter may add constants, the pass must not)."""
+    from ..build import config_name
+    cn = config_name(cfg)
+    maps = schedule_maps(ctx, cfg)
+    n = 0
+    for key, (f, ms) in sorted(maps.items()):
+        if "xor_tk1" not in f.name:
+            continue
+        sk = (key[0], f.name.replace("xor_tk1", "set_tk1"))
+        if sk not in maps:
+            continue
+        n += 1
+        g, gs = maps[sk]
+        cons = construct(f) + ":walk"
+
+        def parts(m):
+            tk = frozenset((k, v) for (k, v) in m if k[0] == "L")
+            sched = frozenset((k, frozenset(x for x in v[0] if x[0] == "L")) for (k, v) in m if k[0] == "E")
+            return tk, sched
+        pa = {parts(m[0]) for m in ms}
+        pb = {parts(m[0]) for m in gs}
+        if pa == pb or (len(pa) == 1 and pa <= pb):
+            rep.ok(rule, cons, fsite(f), "per round, %s moves the tweakey bits exactly like %s and feeds the same tweakey bits into each schedule bit" % (f.name, g.name), cfg=cn)
+        else:
+            rep.violation(rule, cons, fsite(f), "%s does not walk the tweakey like %s (different permutation / LFSR step or different tweakey bits per schedule bit): xoring a tweak out and another in does not give the schedule a fresh key setup would" % (f.name, g.name), cfg=cn)
+    return n
